@@ -6,9 +6,40 @@ from ..ref import upd, pools
 PROP = 'C06'
 
 
+def flowspec_rule_of(length):
+    """a flowspec rule {5: '=a|=b|...'} whose encoded body is exactly `length` octets (1 type octet, then 3-octet terms
+    for values >= 256 and 2-octet terms for values < 256)"""
+    rest = length - 1
+    y = 0
+    while (rest - 2 * y) % 3:
+        y += 1
+    x = (rest - 2 * y) // 3
+    terms = ['=%d' % (1000 + i) for i in range(x)] + ['=%d' % (10 + i) for i in range(y)]
+    return {5: '|'.join(terms)}
+
+
+def boundary_cases():
+    """supplement to the reference pools: flowspec rules whose body length sits exactly on the 1-/2-octet NLRI length
+    boundary (239..242) and on the 255/256 boundary, alone, first and last in the attribute, MP_REACH and MP_UNREACH"""
+    small = {3: '=6'}
+    for ln in (238, 239, 240, 241, 242, 254, 255, 256, 257):
+        r = flowspec_rule_of(ln)
+        for pos, rules in (('alone', [r]), ('first', [r, small]), ('last', [small, r])):
+            cv = ('rule-octets=%d' % ln, 'pos=%s' % pos)
+            yield ('flowspec', ('dir=reach',) + cv, {'attr': {1: 0, 2: [(2, [64512])], 14: {'afi_safi': (1, 133), 'nexthop': '', 'nlri': rules}}}, True)
+            yield ('flowspec', ('dir=unreach',) + cv, {'attr': {15: {'afi_safi': (1, 133), 'withdraw': rules}}}, True)
+
+
+def cases_of(which, tier):
+    if which == 'c06':
+        return pools.c06_cases(tier)
+    import itertools
+    return itertools.chain(pools.c07_cases(tier), boundary_cases())
+
+
 def task(args):
     prop, which, lo, hi, tier = args
-    gen = pools.c06_cases(tier) if which == 'c06' else pools.c07_cases(tier)
+    gen = cases_of(which, tier)
     out = []
     classes = set()
     n = 0
@@ -28,7 +59,7 @@ def task(args):
 def run_pool(prop, which, tier, seed, rule, assumptions):
     tm = report.Timer()
     col = report.Collector(prop)
-    gen = pools.c06_cases(tier) if which == 'c06' else pools.c07_cases(tier)
+    gen = cases_of(which, tier)
     total_cases = sum(1 for _ in gen)
     step = 1500
     tasks = [(prop, which, lo, lo + step, tier) for lo in range(0, total_cases, step)]
